@@ -46,7 +46,11 @@ Base == [camel |-> FALSE, query |-> "Query", mutation |-> "", subscription |-> "
                      Fld(<<"find", "any">>, Named("U"), <<>>, "find_any", "", ""),
                      Fld(<<"any">>, Named("U"), <<>>, "any", "", ""),
                      Fld(<<"level">>, Named("Level"), <<>>, "level", "r_level", ""),
-                     Fld(<<"meta">>, Named("_Meta"), <<>>, "meta", "", "") >>],
+                     Fld(<<"meta">>, Named("_Meta"), <<>>, "meta", "", ""),
+                     Fld(<<"made", "at">>, Named("Stamp"), <<>>, "made_at", "", "") >>],
+    \* a custom scalar realised as an instance of an application SUBCLASS of ScalarType that overrides serialize (impl = "subclass"):
+    \* no operation targets it, so its class and behaviour are preserved
+    [k |-> "scalar", name |-> "Stamp", impl |-> "subclass"],
     \* a user type whose name starts with a single underscore (only names starting with two are reserved)
     \* its description is the marker IDEO2: two lines that both start with U+3000 (expanded by the harness)
     [k |-> "object", name |-> "_Meta", ifaces |-> <<>>, desc |-> "IDEO2", dres |-> "", rt |-> "",
